@@ -27,6 +27,7 @@ class TaskScenario(ScenarioData):
         self._selectedResources: Optional[list[Any]] = None
         self._lastBookedResource: Optional[Any] = None
         self._lastBookedSlot: Optional[int] = None
+        self._slotUsedBefore: float = 0.0
 
         # Ensure required attributes exist
         required_attrs = [
@@ -821,9 +822,21 @@ class TaskScenario(ScenarioData):
         # Clamp to slot duration (shouldn't exceed, but safety check)
         seconds_into_slot = min(seconds_into_slot, slot_duration_seconds)
 
+        # Seconds of this slot that were already taken when this task booked it
+        # (a task always books the whole remainder of a slot)
+        seconds_booked = slot_duration_seconds
+        if resource:
+            res_scenario_booked = resource.data[self.scenarioIdx] if resource.data else None
+            if res_scenario_booked:
+                for task, secs in res_scenario_booked.slotTaskUsage.get(self.currentSlotIdx, []):
+                    if task == self.property:
+                        seconds_booked = secs
+        seconds_before = slot_duration_seconds - seconds_booked
+        seconds_into_slot = min(seconds_into_slot, seconds_booked)
+
         # Calculate the precise end time, rounded to nearest second
         # (Gold standard uses second-level precision)
-        seconds_rounded = round(seconds_into_slot)
+        seconds_rounded = round(seconds_before + seconds_into_slot)
 
         if forward:
             # For forward scheduling, end time is offset from slot start
@@ -843,7 +856,7 @@ class TaskScenario(ScenarioData):
                 precise_end = self.project["start"]
 
         # Release unused portion of the slot back to the resource
-        seconds_unused = slot_duration_seconds - seconds_into_slot
+        seconds_unused = seconds_booked - seconds_into_slot
         if seconds_unused > 0 and resource:
             res_scenario = resource.data[self.scenarioIdx] if resource.data else None
             if res_scenario:
@@ -859,9 +872,7 @@ class TaskScenario(ScenarioData):
                 # Old value was full slot duration, new value is actual usage
                 old_total = res_scenario.slotSecondsUsed.get(self.currentSlotIdx, slot_duration_seconds)
                 # Subtract what was previously booked (full slot) and add actual usage
-                res_scenario.slotSecondsUsed[self.currentSlotIdx] = (
-                    old_total - slot_duration_seconds + seconds_into_slot
-                )
+                res_scenario.slotSecondsUsed[self.currentSlotIdx] = old_total - seconds_booked + seconds_into_slot
 
         return precise_end, seconds_into_slot
 
@@ -1304,6 +1315,7 @@ class TaskScenario(ScenarioData):
         # Now book all resources (or single resource for non-team tasks)
         booked_any = False
         total_effort_this_slot = 0.0
+        self._slotUsedBefore = 0.0
         for resource in resources_to_book:
             effort_gained = self.bookResource(resource)
             if effort_gained > 0:
@@ -1329,8 +1341,10 @@ class TaskScenario(ScenarioData):
 
                     slot_idx = self.currentSlotIdx if self.currentSlotIdx is not None else 0
                     start_date = self.project.idxToDate(slot_idx)
-                    if start_date is not None and hasattr(self, "slotStartOffset") and self.slotStartOffset > 0:
-                        start_date = start_date + timedelta(seconds=self.slotStartOffset)
+                    # The task starts where the part of the slot that was already taken ends
+                    # (dependency offset and/or time used by other tasks sharing the slot)
+                    if start_date is not None and self._slotUsedBefore > 0:
+                        start_date = start_date + timedelta(seconds=round(self._slotUsedBefore))
                     self.property[("start", self.scenarioIdx)] = start_date
 
             # Accumulate effort (counted once per slot, not per resource)
@@ -1414,8 +1428,15 @@ class TaskScenario(ScenarioData):
         if not self.limitsOk(slot_idx, resource):
             return 0.0
 
+        # Seconds of this slot already taken (by other tasks or by the dependency offset)
+        # before this task books the remainder
+        slot_duration = self.project.attributes.get("scheduleGranularity", 3600)
+        used_before = slot_duration - res_scenario.getAvailableSecondsInSlot(slot_idx)
+
         # Book the resource - returns effort gained (accounts for partial slots)
         result_float: float = res_scenario.book(slot_idx, self.property)
+        if result_float > 0 and used_before > self._slotUsedBefore:
+            self._slotUsedBefore = used_before
         return result_float
 
     def propagateDate(self, date: datetime, atEnd: bool) -> None:
